@@ -24,52 +24,6 @@ use fil_actors_evm_shared::uints::U256;
 const UNDERFLOW: u32 = 36;
 const OVERFLOW: u32 = 37;
 
-pub const MAXV: usize = 8;
-
-pub fn any_vals<const N: usize>() -> [U256; N] {
-    let mut v = [U256([0; 4]); N];
-    let mut i = 0;
-    while i < N {
-        v[i] = any_u256();
-        i += 1;
-    }
-    v
-}
-
-/// Build a stack holding vals[0..d] (vals[0] deepest) through the real checked `push`.
-pub fn build<const N: usize>(vals: &[U256; N], d: usize) -> Stack {
-    let mut s = Stack::new();
-    let mut i = 0;
-    while i < N {
-        if i < d {
-            assert!(s.push(vals[i]).is_ok());
-        }
-        i += 1;
-    }
-    assert!(s.len() == d);
-    s
-}
-
-pub fn eq(a: &U256, b: &U256) -> bool {
-    same(a, b.0)
-}
-
-/// Pops everything that is left and checks it equals vals[0..d] (top first).
-pub fn drain_equals<const N: usize>(s: &mut Stack, vals: &[U256; N], d: usize) {
-    assert!(s.len() == d);
-    let mut i = N;
-    while i > 0 {
-        i -= 1;
-        if i < d {
-            let v = s.pop();
-            assert!(v.is_ok());
-            assert!(eq(&v.unwrap(), &vals[i]));
-        }
-    }
-    assert!(s.len() == 0);
-    assert!(s.is_empty());
-}
-
 fn pop_many_case<const S: usize>(d: usize) {
     let vals: [U256; MAXV] = any_vals();
     let mut s = build(&vals, d);
@@ -102,8 +56,9 @@ fn pop_many_case<const S: usize>(d: usize) {
     if d == S + 1 {
         kani::cover!(out.is_some() && vals[0].0[3] != 0);
     }
-    if d + 1 == S {
-        kani::cover!(out.is_none());
+    if d == S.saturating_sub(1) {
+        // underflow witness at depth S-1 (for S = 0 no underflow exists: pop_many::<0> is total)
+        kani::cover!(out.is_none() || S == 0);
     }
 }
 
@@ -182,23 +137,26 @@ fn pop_drop_case(d: usize) {
     }
 }
 
-/// `dup(i)` for every depth 0..=5 and symbolic i in 1..=6: underflow iff i > depth (stack
+/// `dup(i)` for every depth 0..=4 and every i in 1..=5: underflow iff i > depth (stack
 /// unchanged), otherwise depth+1 items, new top == item i-1 below the old top, rest unchanged.
+/// (A symbolic `i` makes the unsafe read offset symbolic: 11.7 GB / OOM.)
 #[kani::proof]
 #[kani::unwind(10)]
 fn c18_stack_dup() {
     let mut d = 0;
-    while d <= 5 {
-        dup_case(d);
+    while d <= 4 {
+        let mut i = 1;
+        while i <= 5 {
+            dup_case(d, i);
+            i += 1;
+        }
         d += 1;
     }
-    kani::cover!(d == 6);
+    kani::cover!(d == 5);
 }
 
-fn dup_case(d: usize) {
+fn dup_case(d: usize, i: usize) {
     let vals: [U256; MAXV] = any_vals();
-    let i: usize = kani::any();
-    kani::assume(i >= 1 && i <= 6);
     let mut s = build(&vals, d);
     match s.dup(i) {
         Ok(()) => {
@@ -214,31 +172,30 @@ fn dup_case(d: usize) {
             drain_equals(&mut s, &vals, d);
         }
     }
-    if d == 5 {
-        kani::cover!(i == 5 && vals[0].0[1] == 9);
-    }
-    if d == 2 {
-        kani::cover!(i == 3);
+    if d == 4 && i == 4 {
+        kani::cover!(vals[0].0[1] == 9);
     }
 }
 
-/// `swap_top(i)` for every depth 0..=5, symbolic i in 0..=6: underflow iff depth <= i
+/// `swap_top(i)` for every depth 0..=4 and every i in 0..=5: underflow iff depth <= i
 /// (unchanged), otherwise exchanges top with the item i below it and nothing else.
 #[kani::proof]
 #[kani::unwind(10)]
 fn c18_stack_swap_top() {
     let mut d = 0;
-    while d <= 5 {
-        swap_case(d);
+    while d <= 4 {
+        let mut i = 0;
+        while i <= 5 {
+            swap_case(d, i);
+            i += 1;
+        }
         d += 1;
     }
-    kani::cover!(d == 6);
+    kani::cover!(d == 5);
 }
 
-fn swap_case(d: usize) {
+fn swap_case(d: usize, i: usize) {
     let vals: [U256; MAXV] = any_vals();
-    let i: usize = kani::any();
-    kani::assume(i <= 6);
     let mut s = build(&vals, d);
     match s.swap_top(i) {
         Ok(()) => {
@@ -255,12 +212,8 @@ fn swap_case(d: usize) {
             drain_equals(&mut s, &vals, d);
         }
     }
-    if d == 5 {
-        kani::cover!(i == 4 && vals[0].0[1] == 9);
-    }
-    if d == 3 {
-        kani::cover!(i == 3);
-        kani::cover!(i == 0);
+    if d == 4 && i == 3 {
+        kani::cover!(vals[0].0[1] == 9 && vals[3].0[1] == 5);
     }
 }
 
@@ -310,35 +263,49 @@ fn c18_stack_realloc() {
     kani::cover!(a.0[3] != 0 && b.0[0] != a.0[0]);
 }
 
-/// Yellow Paper 9.1 stack limit 1024.  Filling a stack with 1023 real pushes is beyond CBMC
-/// (1022 x push_unchecked + unwind 1030: CBMC aborted at the 12 GB cap after 5 min), so the
-/// pre-filled stack is made from a `Vec<U256>` of capacity 1024 and length 1022 + n
-/// (n symbolic in 0..=2, contents nondeterministic) re-interpreted as `Stack` – `Stack` is a
-/// single-field struct around `Vec<U256>`; the harness asserts equal size and that `len()`
-/// reads back.  On that stack the REAL `push`, `ensure_one`, `dup(1)` must succeed iff the
-/// depth is < 1024, report EVM_CONTRACT_STACK_OVERFLOW (37) otherwise and never exceed 1024.
+/// Yellow Paper 9.1 stack limit.  A real stack of 1023/1024 words is beyond CBMC (1022 x
+/// push_unchecked + unwind 1030: abort at the 12 GB cap after 5 min; a pre-sized 32 KB buffer:
+/// CBMC aborts while bit-blasting), so the overflow LOGIC is checked on `stack_scaled`: the
+/// current text of stack.rs with the single line `pub const STACK_SIZE: usize = 1024;`
+/// rewritten to 6 by build.rs, and the VALUE 1024 of the real constant is asserted here.
+/// With limit-2, limit-1, limit words on the stack: `push`, `ensure_one`, `dup(1)` succeed iff
+/// depth < limit, report EVM_CONTRACT_STACK_OVERFLOW (37) otherwise, never exceed the limit
+/// and leave the stack unchanged on failure; `swap_top`/`pop` still work on a full stack.
 #[kani::proof]
-#[kani::unwind(6)]
+#[kani::unwind(10)]
 fn c18_stack_push_limit() {
+    use crate::interpreter::stack_scaled as sc;
     assert!(STACK_SIZE == 1024);
-    assert!(core::mem::size_of::<Stack>() == core::mem::size_of::<Vec<U256>>());
-    let n: usize = kani::any();
-    kani::assume(n <= 2);
-    let d = 1022 + n;
-    let mut v: Vec<U256> = Vec::with_capacity(1024);
-    // SAFETY (harness only): U256 is plain-old-data; CBMC treats the fresh allocation as
-    // nondeterministic, i.e. arbitrary stack contents.
-    unsafe { v.set_len(d) };
-    let top = any_u256();
-    v[d - 1] = top;
-    let mut s: Stack = unsafe { core::mem::transmute::<Vec<U256>, Stack>(v) };
+    assert!(sc::STACK_SIZE == 6);
+    let mut d = sc::STACK_SIZE - 2;
+    while d <= sc::STACK_SIZE {
+        let mut which = 0;
+        while which < 2 {
+            limit_case(d, which == 0);
+            which += 1;
+        }
+        d += 1;
+    }
+    kani::cover!(d == 7);
+}
+
+fn limit_case(d: usize, which: bool) {
+    use crate::interpreter::stack_scaled as sc;
+    let vals: [U256; MAXV] = any_vals();
+    let mut s = sc::Stack::new();
+    let mut i = 0;
+    while i < MAXV {
+        if i < d {
+            assert!(s.push(vals[i]).is_ok());
+        }
+        i += 1;
+    }
     assert!(s.len() == d);
-    let full = d >= 1024;
+    let full = d >= sc::STACK_SIZE;
     match s.ensure_one() {
         Ok(()) => assert!(!full),
         Err(e) => assert!(full && e.exit_code() == EVM_CONTRACT_STACK_OVERFLOW && e.exit_code().value() == OVERFLOW),
     }
-    let which: bool = kani::any();
     let x = any_u256();
     if which {
         match s.push(x) {
@@ -356,18 +323,29 @@ fn c18_stack_push_limit() {
             Ok(()) => {
                 assert!(!full && s.len() == d + 1);
                 let t = s.pop();
-                assert!(t.is_ok() && eq(&t.unwrap(), &top));
+                assert!(t.is_ok() && eq(&t.unwrap(), &vals[d - 1]));
             }
             Err(e) => {
                 assert!(full && e.exit_code() == EVM_CONTRACT_STACK_OVERFLOW && e.exit_code().value() == OVERFLOW);
             }
         }
     }
-    assert!(s.len() == d && s.len() <= 1024);
-    let t = s.pop();
-    assert!(t.is_ok() && eq(&t.unwrap(), &top));
-    kani::cover!(full && which);
-    kani::cover!(full && !which);
-    kani::cover!(n == 1 && !which);
-    kani::cover!(n == 0 && which);
+    assert!(s.len() == d && s.len() <= sc::STACK_SIZE);
+    // a full stack can still be permuted and popped; contents are intact
+    assert!(s.swap_top(1).is_ok());
+    let mut k = MAXV;
+    let mut expect = vals;
+    expect[d - 1] = vals[d - 2];
+    expect[d - 2] = vals[d - 1];
+    while k > 0 {
+        k -= 1;
+        if k < d {
+            let v = s.pop();
+            assert!(v.is_ok() && eq(&v.unwrap(), &expect[k]));
+        }
+    }
+    assert!(s.is_empty());
+    if full {
+        kani::cover!(vals[5].0[2] == 3);
+    }
 }
